@@ -86,4 +86,10 @@ def k_bw_outer(x, y):
     return x[:, None] * y[None, :]
 
 
+def k_block_submax(x):
+    """Block-local: the result depends on where the block boundaries are (what a grid-sensitive consumer looks like)."""
+    x = np.asarray(x)
+    return x - x.max() if x.size else x
+
+
 KERNELS = {f.__name__: f for f in list(globals().values()) if callable(f) and getattr(f, "__name__", "").startswith("k_")}
